@@ -641,7 +641,7 @@ class Wigner:
 
         # Construct storage space
         rotated_mode_weights = (
-            out
+            out.reshape(mode_weights.shape)
             if out is not None
             else np.zeros_like(mode_weights)
         )
@@ -735,7 +735,7 @@ class Wigner:
 
         # Construct storage space
         function_values = (
-            out
+            out.reshape(mode_weights.shape[:-1] + quaternions.shape[:-1])
             if out is not None
             else np.zeros(mode_weights.shape[:-1] + quaternions.shape[:-1], dtype=complex)
         )
